@@ -29,6 +29,7 @@ import (
 const (
 	byteBase     = 1000000 // case numbers of byte batches
 	directedBase = 2000000 // case numbers of directed reproducers (shard 0)
+	stabBase     = 3000000 // case numbers of the concurrent output-stability cases
 )
 
 func subjectByName(n string) *subject {
@@ -117,6 +118,7 @@ func run(c *driver.Ctx) {
 	}
 	reg := rp.NewRegistry(rp.AllCtors())
 	codecs := allCodecs()
+	entries := marshalEntries()
 	emitFor := func(extra map[string]any) func(*finding, map[string]any) {
 		return func(f *finding, w map[string]any) {
 			for k, v := range extra {
@@ -218,11 +220,44 @@ func run(c *driver.Ctx) {
 		sort.Strings(keys)
 		c.Nontrivial("value", s.name, strings.Join(keys, "|"))
 		guardedValueOracles(c, reg, s, x, obs, emitFor(map[string]any{"fill_mode": fillModes[mode].name}))
+		// output stability, sequential variant: one of the subject's two marshal entry points per case
+		{
+			e := &entries[2*((int(i)+c.Shard)%len(subjects))+int(i/int64(len(subjects)))%2]
+			pv, stack := driver.Catch(func() {
+				stabilitySequential(reg, e, rng, obs, emitFor(map[string]any{"oracle": "output-stability/sequential"}))
+			})
+			if pv != nil {
+				c.Note("harness panic in output-stability: %v %s", pv, stack[:min(len(stack), 600)])
+				c.Inconclusive("harness-panic")
+			}
+			c.Distinct("stability_entry_points", e.name, "sequential")
+		}
 		if i < 1 && c.Shard < 2 {
 			var js []byte
 			driver.Catch(func() { js, _ = s.jsMar(x) })
 			c.Sample(map[string]any{"subject": s.name, "fill_mode": fillModes[mode].name, "json": trimS(string(js), 1200)})
 		}
+	}
+
+	// --- output stability, concurrent variant: every marshal entry point in rotation over the shards
+	nS := int64(c.N(6, 48))
+	for j := int64(0); j < nS; j++ {
+		i := stabBase + j
+		if !c.Want(i) {
+			continue
+		}
+		rng := c.CaseRand(i)
+		e := &entries[(int(j)*c.NShards+c.Shard)%len(entries)]
+		pv, stack := driver.Catch(func() {
+			stabilityConcurrent(reg, e, rng, c.N(40, 60), obs, emitFor(map[string]any{"oracle": "output-stability/concurrent"}))
+		})
+		if pv != nil {
+			c.Note("harness panic in concurrent output-stability: %v %s", pv, stack[:min(len(stack), 600)])
+			c.Inconclusive("harness-panic")
+		}
+		c.Eval()
+		c.Distinct("stability_entry_points", e.name, "concurrent")
+		c.Nontrivial("stability-concurrent", e.name, j)
 	}
 
 	// --- byte sweep
@@ -315,7 +350,8 @@ func main() {
 		Level: "exploration",
 		Rule: "value case = one reflectively filled value (12 subjects: 4 payloads, 4 export requests, 4 export responses; 6 fill modes: all fields unique / extreme scalars incl. NaN, ±Inf, -0, ±max / sparse / wide+deeply nested / empty containers / mixed; every one-of alternative, optional fields present or absent) put through all value oracles; " +
 			"distinct = the set of populated field paths; every value case is non-trivial. Byte case = one input offered to one of the 24 Unmarshal* functions: valid encodings mutated structurally (protobuf: retag incl. deprecated field 1000, wire type, length/varint edits, duplicate/drop/reorder/unknown fields; JSON: scalar respelling, key renaming, punctuation, deep nesting, duplicated ranges, string noise) " +
-			"and blindly (truncate, flip, splice, fill), cross-fed encodings, noise; distinct = (codec, decoded/rejected, input hash).",
+			"and blindly (truncate, flip, splice, fill), cross-fed encodings, noise; distinct = (codec, decoded/rejected, input hash). " +
+			"Output stability: every value case also holds the output of one of the 24 Marshal entry points across 2-5 further calls with different (smaller and larger) values through the same and a fresh marshaler object, and per shard 6 (48) concurrent cases let 4-8 goroutines share one marshaler object; held bytes must stay unchanged and decode to the value they were produced from.",
 		Assumptions: []string{
 			"generated strings are valid UTF-8 (proto3 strings); invalid UTF-8 only occurs in the byte sweep, where the fixed-point rule allows one normalisation round (b1 != b2 == b3)",
 			"JSON variants: a quoted decimal outside id/bytes keys is a 64-bit integer because the filler never generates purely decimal strings; enum names come from the OTLP .proto files; snake_case keys and all-numbers-as-strings are observed, never judged",
